@@ -15,7 +15,7 @@ LEVEL = 'exploration'
 def check_case(case, acc):
     from cardutil import iso8583
     msg, exp, cfg = isogen.build_message(case)
-    kw = dict(encoding=case['enc'], iso_config=cfg, hex_bitmap=case['hex'])
+    kw = dict(encoding=case['enc'], iso_config=isogen.lib_cfg(case), hex_bitmap=case['hex'])
     pds = {k: v for k, v in msg.items() if k.startswith('PDS')}
     want_carriers = iso_ref.pds_pack(pds)
     bits = iso_ref.pds_carrier_bits(cfg)
@@ -82,6 +82,44 @@ def check_case(case, acc):
             return
 
 
+def check_move_case(case, acc):
+    """one caller-owned configuration object; between calls the set of PDS carrier elements is edited in place.
+    Packing and recovery must follow the configuration as it is at each call."""
+    import copy as _copy
+    isogen.set_live(_copy.deepcopy(isogen.get_cfg(case['base'])))
+    for i, edits in enumerate(case['edits']):
+        for e in edits:
+            isogen.apply_edit(isogen._LIVE['cfg'], e)
+        tmp = core.Acc()
+        check_case({'cfg': 'LIVE', 'enc': case['enc'], 'hex': False, 'seed': case.get('seed', 0), 'f': [],
+                    'pds': case['pds']}, tmp)
+        for sig, (n, dets) in tmp.violations.items():
+            acc.viol(sig.replace('c12.', 'c12.inplace.', 1), case, dets[0]['observed'], dets[0]['expected'],
+                     'step %d, after in-place edits %s of the configuration object' % (i + 1, edits))
+            return
+    acc.case(('move', case['base'], case['enc'], repr(case['pds']), repr(case['edits'])), nontrivial=True,
+             outcome='inplace')
+
+
+def move_cases(seed):
+    out = []
+    sets = [[[1, 900], [2, 500], [3, 3]], [[23, 3], [158, 12]], [[1, 992], [2, 992], [3, 992]]]
+    for base in ('PKG', 'GEN%d' % (seed % 14)):
+        cfg = isogen.get_cfg(base)
+        carriers = iso_ref.pds_carrier_bits(cfg)
+        texts = [b for b in isogen.bits_of(base) if isogen.field_class(cfg[str(b)]) == 'var'
+                 and iso_ref.prefix_len(cfg[str(b)]) == 3]
+        for k in range(min(3, len(carriers), len(texts))):
+            c1, t1 = carriers[k], texts[k]
+            off = [['del', c1, 'field_processor'], ['set', t1, 'field_processor', 'PDS']]
+            on = [['set', c1, 'field_processor', 'PDS'], ['del', t1, 'field_processor']]
+            for pds in sets:
+                for enc in ('latin_1', 'cp500'):
+                    out.append({'kind': 'move', 'base': base, 'enc': enc, 'pds': pds, 'seed': seed,
+                                'edits': [[], off, on, off, []]})
+    return out
+
+
 def families(tier):
     fams = []
     # (a) exhaustive boundary sweep for two tags
@@ -129,11 +167,17 @@ def tasks(tier, seed):
                 continue
             for ch in core.spread(sets, 24 if len(sets) > 500 else 2):
                 ts.append({'fam': name, 'cfg': cfgname, 'enc': enc, 'sets': ch, 'seed': seed})
+    ts.append({'fam': 'move', 'cases': move_cases(seed), 'cfg': '-', 'enc': '-', 'seed': seed})
     return ts
 
 
 def run_task(task):
     acc = core.Acc()
+    if task['fam'] == 'move':
+        acc.sample(task['cases'][0])
+        for case in task['cases']:
+            check_move_case(case, acc)
+        return acc
     cfg = isogen.get_cfg(task['cfg'])
     others = []
     # a few ordinary elements around the carriers, so that neighbours are present
@@ -165,7 +209,8 @@ def describe(tier, seed):
                 'boundary sweep), (b) three-tag sets sweeping the second carrier boundary (%d), (c) zero-length values '
                 'first/middle/last, tags 0000/0001/0999/9999, 1..5 full carriers, 142/143/199 empty sub-elements, '
                 'mixed sets; values position-coded text and digit-only (header look-alikes); with and without '
-                'neighbouring ordinary elements; packaged and generated carrier placement; latin_1/cp500/cp037. '
+                'neighbouring ordinary elements; packaged and generated carrier placement; latin_1/cp500/cp037; '
+                'in-place sequences: one configuration object whose set of carrier elements is edited between calls. '
                 'Oracle: carriers found by an independent reading of the dumps output, in ascending element order, '
                 'concatenate to the ascending-tag tag4 len3 value stream, none exceeds 999 characters, every carrier '
                 'boundary is a sub-element boundary; sets that fit greedily must not be refused; loads returns '
@@ -180,7 +225,10 @@ def describe(tier, seed):
 
 def replay_case(case):
     acc = core.Acc()
-    check_case(case, acc)
+    if case.get('kind') == 'move':
+        check_move_case(case, acc)
+    else:
+        check_case(case, acc)
     return acc
 
 
